@@ -9,7 +9,6 @@ import (
 	"path/filepath"
 	"sort"
 	"strings"
-	"sync"
 	"time"
 
 	"golang.org/x/tools/go/ssa"
@@ -285,28 +284,16 @@ func (r *Runner) Run() int {
 		jobs = append(jobs, job{h.rel, h.fn})
 	}
 	results := make([]*HarnessResult, len(jobs))
-	conc := cores
-	if len(jobs) < conc {
-		conc = len(jobs)
-	}
-	per := cores / conc
-	if per < 1 {
-		per = 1
-	}
-	sem := make(chan struct{}, conc)
-	var wg sync.WaitGroup
+	// harnesses run one after the other, each with all workers (the path
+	// worklist inside a harness is what is parallel)
 	for i, j := range jobs {
-		wg.Add(1)
-		sem <- struct{}{}
-		go func(i int, j job) {
-			defer wg.Done()
-			defer func() { <-sem }()
-			results[i] = r.runHarness(j.rel, j.fn, per)
-			hr := results[i]
-			fmt.Fprintf(os.Stderr, "  %-44s paths=%-6d ends=%v findings=%d q=%d solver=%.1fs wall=%.1fs\n", hr.Name, hr.Report.Paths, hr.Report.Ends, len(hr.Report.Findings), hr.Stats.Solver.Queries, hr.Stats.Solver.Seconds, hr.Wall)
-		}(i, j)
+		results[i] = r.runHarness(j.rel, j.fn, cores)
+		hr := results[i]
+		fmt.Fprintf(os.Stderr, "  %-44s paths=%-6d ends=%v findings=%d q=%d solver=%.1fs wall=%.1fs\n", hr.Name, hr.Report.Paths, hr.Report.Ends, len(hr.Report.Findings), hr.Stats.Solver.Queries, hr.Stats.Solver.Seconds, hr.Wall)
+		if hr.Err != nil {
+			fmt.Fprintf(os.Stderr, "    error: %v\n", hr.Err)
+		}
 	}
-	wg.Wait()
 	if prop.Extra != nil {
 		prop.Extra(r)
 	}
@@ -362,7 +349,7 @@ func (r *Runner) Run() int {
 			if f.Kind == "alloc" {
 				// the allocation bound is checked by the meter; natively we confirm
 				// that the same input drives the real decoder to request the memory
-				confirmed = rr.Kind == "alloc" || rr.Kind == "hang" || rr.Kind == "panic"
+				confirmed = rr.Kind == "alloc" || rr.Kind == "hang" || rr.Kind == "panic" || rr.Kind == "assert"
 			}
 			if !confirmed {
 				fo.Class = "unconfirmed"
